@@ -12,7 +12,7 @@ Definition place0 : key -> nat := fun _ => 0%nat.
 Lemma cluster1_is_node c e n o :
   cstep place0 c (e, [n]) (COp o) = let '(e', n', r) := step c (e, n) o in (e', [n'], r).
 Proof.
-  destruct o as [id f|i f1 f2|w ks|ks|k v f|dt| |g s0 d|k g ttl|kc]; simpl.
+  destruct o as [id f|i f1 f2|w ks|ks|k v f|dt| |g s0 d|k g ttl|kc|ide]; simpl.
   - unfold c_take_pk, place0. simpl. destruct (take_pk c f e n id) as [[e' n'] r]. reflexivity.
   - unfold c_query_row_index, query_row_index, place0. simpl.
     destruct (do_get dec_pk n (IX i)) as [n1 g]. destruct g as [pk| | | |]; simpl; try reflexivity.
@@ -30,6 +30,7 @@ Proof.
   - reflexivity.
   - reflexivity.
   - reflexivity.
+  - unfold place0. simpl. destruct (take_pk_dberr e n ide) as [[e' n'] r]. reflexivity.
 Qed.
 
 (* ---- per-key dispatch: a single-key operation is the node operation on the key's node ---- *)
@@ -102,7 +103,7 @@ Section Dispatch.
   Lemma all_JF_cstep c s o : all_JF (snd s) -> all_JF (snd (cstep_st place c s o)).
   Proof.
     destruct s as [e ns]. unfold cstep_st. intro H. destruct o as [o|j g s0 d]; simpl.
-    - destruct o as [id f|i f1 f2|w ks|ks|k v f|dt| |g s0 d|k g ttl|kc]; simpl.
+    - destruct o as [id f|i f1 f2|w ks|ks|k v f|dt| |g s0 d|k g ttl|kc|ide]; simpl.
       + apply all_JF_take_pk. assumption.
       + unfold c_query_row_index. destruct (nth_error ns (place (IX i))) as [n|] eqn:E; [|assumption].
         pose proof (same_cl_do_get dec_pk n (IX i)) as S. destruct (do_get dec_pk n (IX i)) as [n1 g]. simpl in S.
@@ -132,6 +133,9 @@ Section Dispatch.
       + apply all_JF_map; [|assumption]. intros n0 Hn0. eapply same_cl_JF; [|exact Hn0]. repeat split.
       + apply all_JF_on_node; [|assumption]. intros n0 Hn0. simpl. eapply same_cl_JF; [|exact Hn0]. repeat split.
       + assumption.
+      + destruct (nth_error ns (place (PK ide))) as [n|] eqn:E; [|assumption].
+        pose proof (same_cl_take_pk_dberr e n ide) as S. destruct (take_pk_dberr e n ide) as [[e' n'] r]. simpl in *.
+        apply all_JF_upd; [assumption|]. eapply same_cl_JF; [exact S|]. eapply all_JF_nth; eauto.
     - destruct (nth_error ns j) as [n|] eqn:E; [|assumption].
       apply all_JF_upd; [assumption|]. eapply same_cl_JF; [|eapply all_JF_nth; eauto]. repeat split.
   Qed.
